@@ -3,6 +3,8 @@ package config
 import (
 	"fmt"
 	"os"
+	"path"
+	"strings"
 
 	"gopkg.in/yaml.v3"
 )
@@ -406,8 +408,25 @@ func (c *Config) validateMetrics() error {
 		if c.Metrics.Path == "" {
 			return fmt.Errorf("metrics path is required when enabled")
 		}
+		if !servablePath(c.Metrics.Path) {
+			return fmt.Errorf("metrics path must be a clean absolute URL path such as /metrics (got %q)", c.Metrics.Path)
+		}
+		if c.Metrics.Path == "/health" {
+			return fmt.Errorf("metrics path /health is taken by the health endpoint of the metrics server")
+		}
 	}
 	return nil
+}
+
+// servablePath reports whether requests can reach a handler registered under p: the path is absolute
+// and clean (a trailing slash is fine). The mux cleans request paths before it looks them up and
+// takes a pattern without a leading slash for a host name, so anything else is never served.
+func servablePath(p string) bool {
+	if !strings.HasPrefix(p, "/") {
+		return false
+	}
+	clean := path.Clean(p)
+	return clean == p || clean+"/" == p
 }
 
 func (c *Config) validateAdminAPI() error {
